@@ -451,6 +451,10 @@ def write_case(case, td):
         os.makedirs(d, exist_ok=True)
         with open(os.path.join(d, extra['name']), 'w') as f:
             f.write(extra.get('text', '; dup\n'))
+    for ln in case.get('symlinks', []):
+        d = os.path.join(td, ln['dir'])
+        os.makedirs(d, exist_ok=True)
+        os.symlink(os.path.join(td, ln['target']), os.path.join(d, ln['name']))
     incdirs = [os.path.join(td, d) for d in case.get('include_dirs', [])]
     return isa, paths, incdirs
 
